@@ -202,6 +202,30 @@ def gen_scenario(seed: int, light: bool = False) -> Dict[str, Any]:
             else:
                 lk["follower_at"] = [float(x) for x in img]
         links.append(lk)
+    # "swing": the leader sits on a small circle (RadialClamp) whose far side is where it wants to
+    # be, and a follower is tied to it by a RotationLink about the same axis - the leader then turns
+    # far more than a quarter turn
+    if kind == "mesh" and not light and rs.chance(0.12) and len(names) > 2:
+        nme = rs.pick(names)
+        p = np.array(sc["nodes"][nme])
+        ideal = np.array([float(x) for x in nme.split("_")])
+        gap = ideal - p
+        if float(np.linalg.norm(gap)) > 0.03:
+            u = gap / np.linalg.norm(gap)
+            r = rs.uniform(0.08, 0.2)
+            centre = p + r * u
+            n = np.cross(u, unit([0.3, 0.5, 0.8] if abs(u[0]) > 0.8 else [1.0, 0.2, 0.1]))
+            n = unit(n)
+            spec = {"node": nme, "type": "radial", "center": [round(x, 6) for x in centre], "normal": [round(x, 6) for x in n]}
+            clamps = [c for c in clamps if c["node"] != nme] + [spec]
+            links = [l for l in links if l["follower"] != nme]  # a clamped vertex cannot also follow someone
+            others = [x for x in names if x != nme and x not in [c["node"] for c in clamps] and x not in [l["follower"] for l in links]]
+            if others:
+                fol = rs.pick(others)
+                links = [l for l in links if l["leader"] != nme and l["follower"] != fol]
+                links.append({"leader": nme, "follower": fol, "type": "rotation", "axis": spec["normal"], "origin": spec["center"]})
+            sc["clamps"] = clamps
+            sc["swing"] = True
     sc["links"] = links
     sc["repeat"] = rs.chance(0.4)  # optimize() is called a second time on the same optimizer
     sc["method"] = rs.pick(METHODS if not light else ["SLSQP", "L-BFGS-B"])
